@@ -90,6 +90,7 @@ let () =
   let n_cases = ref 0 and n_agree = ref 0 and n_mismatch = ref 0 in
   let n_fail = ref 0 and n_known = ref 0 and n_model_fail = ref 0 in
   let reported = ref 0 in
+  let reported_fail = ref 0 in
   let classes : (int, int) Hashtbl.t = Hashtbl.create 16 in
   let knowns : (int, int) Hashtbl.t = Hashtbl.create 16 in
   let distinct : (string, unit) Hashtbl.t = Hashtbl.create 100000 in
@@ -126,8 +127,11 @@ let () =
             | _ -> ());
            (* inputs in a known-finding class are outside the property's domain: neither a disagreement nor a failed verdict there is reported *)
            let bad = kn = 0 && ((not agree) || (not v_impl) || (not v_model)) in
-           if bad && !reported < max_report then begin
-             incr reported;
+           (* failing property verdicts and mere disagreements have separate report budgets, so that a
+              stream of harmless disagreements cannot hide a failing input further down *)
+           let slot = if not v_impl then reported_fail else reported in
+           if bad && !slot < max_report then begin
+             incr slot;
              Printf.printf "CASE line=%d agree=%b verdict_impl=%b verdict_model=%b known=%d class=%d\n  input: %s\n  impl:  %s\n  model: %s\n"
                !n_cases agree v_impl v_model kn cls si so (show_list model)
            end
